@@ -452,6 +452,9 @@ def build(s):
         front = {kk: shadow[kk] for kk in keys if kk in shadow and isinstance(kk, int)}
         ao = {**front, **ao, **{kk: shadow[kk] for kk in keys if kk in shadow and not isinstance(kk, int)}}
     att_obj = cbor2.dumps(ao)
+    if k.get("ao_style") and k["ao_style"] != "canonical":
+        from harness import cborgen
+        att_obj = cborgen.encode_styled(ao, k["ao_style"])      # the same attestation object in another of the encodings RFC 8949 allows
     # the OUTER rawId / id of the credential (client-controlled) may differ from the credential id attested inside authData
     reg = Registration(cred, k.get("outer_raw_id", s.cred_id), cdj, att_obj, id_text=s.id_text, typ=s.typ)
     if s.post:
